@@ -6,7 +6,7 @@ READY = True
 XCHECK = 40
 RULE = ("count family c14n (N,B,P,rf | examined nodes | examined partitions): every N<=8 x rf in {0..N+1,12,13,255} x B<=16 x P (quick: 0,1,2,B-1,B,B+1,2B+1,31,32; "
         "thorough: every P<=32), all partitions, all nodes (quick: 2 nodes when N>3); boundary N in {9,11,12,13,14,16,17,31,64,128,254..258,299,300} with rf in "
-        "{1,2,3,5,11,12,13,44,255,min(N,255),rnd}, B in {1,2,N-1,N,N+1,2N+1,1000,65535,rnd}, P up to 65535, 2-3 nodes and ~50 partitions examined (9 per N quick, 60 thorough); "
+        "{1,2,3,5,11,12,13,44,255,min(N,255),rnd}, B in {1,2,N-1,N,N+1,2N+1,1000,65535,rnd}, P up to 2048 (65535 once per N on thorough and in three fixed cases at N=256,257,300), 2-3 nodes and ~50 partitions examined (9 per N quick, 30 thorough); "
         "each examined node is a real manager that has learnt all N-1 others (random order). "
         "order family c14o: every sequence of up to 4 (thorough 5) events from a pool of 9 (connects, heartbeat, timeout, disconnect, two ownership responses) on a 3-node cluster "
         "and 3-4 events on a second one, plus 1500 (thorough 12000) random histories of 1..14 events over 2-5 managers (connect/heartbeat/index-change heartbeat/disconnect/timeout/"
